@@ -195,3 +195,21 @@ for _f in sorted(_glob.glob(_os.path.join(_os.path.dirname(_os.path.abspath(__fi
     _m = _ilu.module_from_spec(_spec)
     _spec.loader.exec_module(_m)
     PROPS[_id] = _m.SPEC
+
+
+def _c03_post(reports_by_run, pid):
+    """memchr and no-memchr builds must behave identically: same per-shard digest chain over all programs."""
+    out = []
+    a = {r.get("shard"): r for r in reports_by_run.get("memchr", [])}
+    b = {r.get("shard"): r for r in reports_by_run.get("no-memchr", [])}
+    for sh in sorted(set(a) & set(b)):
+        da, db = a[sh].get("notes", {}).get("digest_chain"), b[sh].get("notes", {}).get("digest_chain")
+        if da is not None and db is not None and da != db:
+            out.append({"property": pid, "kind": "memchr_and_no_memchr_builds_differ", "shard": sh,
+                        "expected": {"no-memchr digest chain": db}, "observed": {"memchr digest chain": da},
+                        "note": "replay the shard with both builds to find the first differing program"})
+    return out
+
+
+if "C03" in PROPS:
+    PROPS["C03"]["post"] = _c03_post
